@@ -224,9 +224,18 @@ def builtin_getitem(c):
     c.replay("code", code=REPLAY_SCOPE)
 
 
+# ---- "in a rendered partial a name resolves to the partial's own variables, then that render
+# ---- tag's arguments, then global data": the isolated copy's chain is exactly [arguments,
+# ---- ROOT globals] whatever the depth of the calling context (C15's copy contracts, for C14)
+from contracts.C15 import _copy_isolated  # noqa: E402
+
+for _origin in ("root", "partial", "block", "partial-in-block", "partial-in-partial"):
+    contract(CTX + ".copy", prop="C14", name=f"copy[isolated: names resolve in arguments then global data, caller={_origin}]")(lambda c, o=_origin: _copy_isolated(c, o))
+
 for _sfx in ("", "_async"):
     for _b in ("none", "scalar", "array"):
         include_node_contract("C14", _sfx, _b, lambda: REPLAY_SCOPE)
+        render_node_contract("C14", _sfx, _b, lambda: REPLAY_RENDER_ARGS)   # the render tag's own expressions resolve in the caller
 
 
 # resolving a path with a nested variable never freezes the nested value into the parsed path
@@ -242,6 +251,21 @@ not_covered("C14", "parsing of path syntax into segments (Path.parse)", "chain l
             "that AssignNode/CaptureNode call context.assign is a structural call-site obligation ('binding-call-sites'); that include renders in the caller's own context inside a block scope holding its arguments is proved on IncludeNode.render_to_output*")
 
 bounded("C14", "bounded/C14.py")
+
+REPLAY_RENDER_ARGS = r'''
+def run(m):
+    import asyncio
+    from liquid import Environment, DictLoader
+    env = Environment(loader=DictLoader({"p": "[{{ p }}{{ v }}{{ k }}]"}), globals={"v": "G"})
+    bad = []
+    for src, want in (("{% assign v = 'L' %}{% render 'p' with v %}", "[LG]"), ("{% for v in (1..2) %}{% render 'p' with v %}{% endfor %}", "[1G][2G]"),
+                      ("{% assign xs = 'a,b' | split: ',' %}{% render 'p' for xs %}", "[aG][bG]"), ("{% capture c %}C{% endcapture %}{% render 'p', k: c %}", "[GC]")):
+        t = env.from_string(src)
+        for got in (t.render(), asyncio.run(t.render_async())):
+            if got != want:
+                bad.append((src, got, want))
+    return {"failing": bool(bad), "violated": bool(bad), "witness": "render-tag-arguments-resolved-outside-the-caller", "call": repr(bad[:2]), "result": bad[0][1] if bad else "ok", "expected": bad[0][2] if bad else ""}
+'''
 
 REPLAY_SCOPE = r'''
 def run(m):
